@@ -20,12 +20,12 @@ RULE = ("grid: curves 1..40 x rows {1,2,3} x wrap {F,T} x engine {numpy, normal}
         "data_section_header. distinct = distinct (curve count, row class, option tuple, value classes, engine); "
         "non-trivial = (>= 2 curves or >= 2 rows) and >= 1 finite non-integer sample Added later: a second write after in-place edits, second-generation writes of the re-read object, digit-named curves, data_width equal to the widest field (+0..3) x every lhs_spacer, the object's own WRAP item in six spellings with wrap left to write().")
 ASSUMPTIONS = [
-    "spacer contains at least one blank; data_width >= widest field (textwrap must not split a token): the grid and a quarter of the random cases use exactly widest field + 0..3",
+    "spacer contains at least one blank; data_width is at least the widest field in most cases (exactly widest field + 0..3 in the grid and a quarter of the random cases) and *below* it in the 'narrow' cases, where a field must stand alone on an over-long line",
     "no finite non-index sample prints as a token numerically equal to NULL (it would legitimately come back as NaN)",
     "tolerance = half a unit of the last printed digit of the token fmt % x, plus 4 ulp of slack",
 ]
 REQUIRED = ["write_read_pairs", "samples_compared", "wrapped_pairs_multi_line", "pairs_curve_count_multiple_of_capacity",
-            "engine_numpy_pairs", "engine_normal_pairs", "nan_samples_compared", "index_null_equal_samples", "cases_in_memory_dlm_not_space", "rewrites_after_inplace_edit", "cases_data_width_equals_widest_field", "second_generation_writes", "cases_digit_named_curves", "cases_wrap_left_to_the_object", "cases_wrap_argument_not_a_python_bool"]
+            "engine_numpy_pairs", "engine_normal_pairs", "nan_samples_compared", "index_null_equal_samples", "cases_in_memory_dlm_not_space", "rewrites_after_inplace_edit", "cases_data_width_equals_widest_field", "second_generation_writes", "cases_digit_named_curves", "cases_wrap_left_to_the_object", "cases_wrap_argument_not_a_python_bool", "cases_data_width_below_widest_field"]
 SOFT_DEADLINE = {"quick": 90, "thorough": 1500}
 LEVEL_TEXT = ("Exploration of the (shape x values x writer options x engine) product space with a per-sample oracle whose "
               "tolerance is derived from the token actually printed; line capacity is observed from the emitted text.")
@@ -61,6 +61,11 @@ def grid(tier):
             for n in (3, 8, 14, 21):
                 k += 1
                 yield {"n": n, "r": 3, "opts": {"wrap": wrap}, "engine": ["numpy", "normal"][k % 2], "values": "plain", "seed": 8 * k, "wrap_form": form}
+    for narrow in (1, 3, 8):
+        for values, fmt in (("plain", "%.5f"), ("wide", "%.5f"), ("wide", "%24.16e")):
+            for n in (1, 2, 8):
+                k += 1
+                yield {"n": n, "r": 3, "opts": {"wrap": True, "fmt": fmt}, "engine": ["numpy", "normal"][k % 2], "values": values, "seed": k, "narrow_width": narrow}
     for tight in (0, 1, 2):
         for lhs in ("", " ", "  ", "   "):
             for values, fmt in (("plain", "%.5f"), ("wide", "%.5f"), ("wide", "%24.16e"), ("plain", "%.2f")):
@@ -100,7 +105,7 @@ def random_case(rng, tier):
     return {"n": n, "r": rng.choice([1, 2, 3, 5, 12, 20, 21, 22, 30]), "opts": o, "engine": rng.choice(["numpy", "normal"]),
             "values": rng.choice(["plain", "wide", "wide", "halfway", "ints", "nearnull"]), "nan": rng.choice([0, 0, 0.2, 0.6]),
             "null": rng.choice([-999.25, -9999, 0, 999.25, 2147483647, -9999999.25, 99999999999, 3.4028235e+38]), "seed": rng.randrange(10 ** 9),
-            "tight_width": rng.choice([None, None, None, 0, 1, 2, 3]), "wrap_item": rng.choice([None] * 8 + ["Yes", "yes", "YES", "No"]), "wrap_form": rng.choice([None] * 6 + ["numpy", "int"])}
+            "tight_width": rng.choice([None, None, None, 0, 1, 2, 3]), "wrap_item": rng.choice([None] * 8 + ["Yes", "yes", "YES", "No"]), "wrap_form": rng.choice([None] * 6 + ["numpy", "int"]), "narrow_width": rng.choice([None] * 9 + [1, 2, 5, 20])}
 
 
 def make_values(case):
@@ -180,7 +185,12 @@ def run_case(case, ctx):
     need = width + max(len(opts.get("spacer", " ")), len(opts.get("lhs_spacer", " "))) + 1
     if opts.get("wrap") and opts.get("data_width", 79) < need:
         opts["data_width"] = need
-    if opts.get("wrap") and case.get("tight_width") is not None:
+    if opts.get("wrap") and case.get("narrow_width"):
+        # a line narrower than one field ("float64 samples over the whole magnitude range": 1e80 prints 87 characters with %.5f):
+        # the field then stands alone on an over-long line, it is never cut
+        opts["data_width"] = max(4, width - case["narrow_width"])
+        ctx.count("cases_data_width_below_widest_field")
+    elif opts.get("wrap") and case.get("tight_width") is not None:
         # the narrowest supported line: exactly as wide as the widest field (+0, +1, +2) - the field then stands on a line of its own
         opts["data_width"] = width + case["tight_width"]
         ctx.count("cases_data_width_equals_widest_field" if case["tight_width"] == 0 else "cases_data_width_just_above_widest_field")
